@@ -170,12 +170,35 @@ def post(ctx, rows, res, bindir):
                                     "in_known_class": len(ares.known)}
         ctx.cov["evaluations"] += len(arows)
         ctx.cov["traces_validated_against_impl"] += ares.agree
+        # CPython-based verdict (covers float-valued trees, where the Lean spec column is `-`): the literal of a case
+        # whose id ends in `=` IS CPython's value of the tree, every other literal differs from it
+        fold_impl = {r[0]: r[2] for r in rows if r[1].startswith("(fold ")}
+        am = {r[0]: r for r in amrows}
+        py_viol = []
+        for r in arows:
+            mr = am.get(r[0])
+            if mr is None or (mr[3] in known_ids and r[2] == mr[1]):
+                continue
+            base, tag = r[0][:-1], r[0][-1]
+            if r[2].startswith("crash"):
+                py_viol.append((r, mr, "viol:the compiler crashed"))
+            elif tag == "=" and r[2] == "rejected" and fold_impl.get(base, "").startswith("(folded"):
+                py_viol.append((r, mr, "viol:`x: {N} = v` rejected although v is the run-time value of N (CPython 3.11) and N was folded to "
+                                + fold_impl[base]))
+            elif tag != "=" and r[2] == "accepted":
+                py_viol.append((r, mr, "viol:`x: {N} = v` accepted although v differs from the run-time value of N (CPython 3.11: "
+                                + py.get(base, "?") + ")"))
         if ares.spec_viol:
             v = ares.spec_viol[0]
             acc_bad += 1
             ctx.violation({"kind": "implementation-violates-spec", "case_id": v[0], "input": v[1], "impl": v[2], "model": v[3],
                            "spec": v[4], "inK": v[5], "others": [x[1] for x in ares.spec_viol[1:6]]})
-        elif ares.disagree:
+        elif py_viol:
+            r, mr, what = py_viol[0]
+            acc_bad += 1
+            ctx.violation({"kind": "implementation-violates-spec", "case_id": r[0], "input": r[1], "impl": r[2], "model": mr[1],
+                           "spec": what, "inK": mr[3], "others": [x[0][1] for x in py_viol[1:6]]})
+        elif ares.disagree and ctx.violations == 0:
             acc_bad += 1
             ctx.violation({"kind": "no-longer-shown", "what": "acceptance of `x: {N} = v` differs from the model's prediction",
                            "correspondence_disagreements": [dict(id=x[0], input=x[1], impl=x[2], model=x[3]) for x in ares.disagree[:10]]},
